@@ -4,6 +4,13 @@
 //! Both tiers (milliseconds): kind `deep_term` — a `data_type` text `A(A(…I8…))` nested `n` levels deep handed to
 //! `SerdeArrowSchema::from_value` (fix d2b4b5b: before it the recursive descent of `Term::from_str` exhausted the
 //! stack from some 50 000 levels on — an abort of the process, which `./check` attributes to the case).
+//! Kind `union_rows` (repo fix fe68100): `n` rows of ONE unit variant into a dense `Union<Null, Null>` column: row `i`
+//! gets the child offset `i`, so exactly the rows `0 ..= i32::MAX - 1` are accepted (2^31 - 1 of them) and the next
+//! one must be an ERROR annotated by the union builder (before the fix `current_offset[variant] += 1` overflowed: a
+//! panic with overflow checks, a negative offset without).  Small `n` in both tiers; `n = 2^31` in the thorough tier
+//! only: the union's own buffers need 10 GiB (types 2 GiB + offsets 8 GiB) and — the union builder allocates its
+//! error context for every row — about 6.5 minutes at opt-level 1 (measured 374 s; the suite's per-case timeout in the
+//! thorough tier is set accordingly in props/C16.json and props/C05.json).
 use crate::outcome;
 use crate::Ctx;
 use marrow::datatypes::{DataType, Field};
@@ -32,6 +39,129 @@ impl Serialize for Row {
     }
 }
 
+/// a row `{a: <unit variant `variant` of an enum>}`
+struct VariantRow(u32);
+
+impl Serialize for VariantRow {
+    fn serialize<S: Serializer>(&self, s: S) -> Result<S::Ok, S::Error> {
+        struct V(u32);
+        impl Serialize for V {
+            fn serialize<S: Serializer>(&self, s: S) -> Result<S::Ok, S::Error> {
+                s.serialize_unit_variant("E", self.0, if self.0 == 0 { "A" } else { "B" })
+            }
+        }
+        let mut q = s.serialize_struct("Row", 1)?;
+        q.serialize_field("a", &V(self.0))?;
+        q.end()
+    }
+}
+
+fn union_rows_cases(thorough: bool) -> Vec<Value> {
+    let mut ns: Vec<(u64, u64)> = vec![(0, 0), (3, 0), (1000, 1)];
+    if thorough {
+        // one row more than the offset type can count: rows 0 ..= 2^31 - 2 accepted, row 2^31 - 1 refused
+        ns.push((2147483648, 1));
+    }
+    ns.iter()
+        .enumerate()
+        .map(|(k, (n, v))| json!({"id": format!("overflow-0002{k:02}"), "seed": 0, "kind": "union_rows", "n": n, "variant": v}))
+        .collect()
+}
+
+fn exec_union_rows(input: &Value) -> Value {
+    let n = input["n"].as_u64().unwrap();
+    let variant = input["variant"].as_u64().unwrap() as u32;
+    let null = |name: &str| Field { name: name.into(), data_type: DataType::Null, nullable: true, metadata: Default::default() };
+    let fields = vec![Field {
+        name: "a".into(),
+        data_type: DataType::Union(vec![(0, null("A")), (1, null("B"))], marrow::datatypes::UnionMode::Dense),
+        nullable: false,
+        metadata: Default::default(),
+    }];
+    let imp = outcome::run(|| {
+        let mut builder = serde_arrow::ArrayBuilder::from_marrow(&fields)?;
+        let row = VariantRow(variant);
+        let mut first_err: Option<u64> = None;
+        let mut err: Value = Value::Null;
+        for i in 0..n {
+            if let Err(e) = builder.push(&row) {
+                first_err = Some(i);
+                err = outcome::parse_error(&e.to_string());
+                break;
+            }
+        }
+        // what the array says about the rows that were accepted (only looked at when nothing was refused)
+        let mut last_offset: Option<i64> = None;
+        let mut rows: Option<u64> = None;
+        if first_err.is_none() {
+            let arrays = builder.to_marrow()?;
+            if let marrow::array::Array::Union(u) = &arrays[0] {
+                rows = Some(u.types.len() as u64);
+                last_offset = u.offsets.as_ref().and_then(|o| o.last().copied()).map(|x| x as i64);
+            }
+        }
+        Ok::<Value, serde_arrow::Error>(json!({"first_err": first_err, "err": err, "rows": rows, "last_offset": last_offset}))
+    });
+    let mut case = input.clone();
+    case.as_object_mut().unwrap().insert("impl".into(), imp);
+    case
+}
+
+/// kind `len_hint` (repo fix 4c15f66): a `Serialize` impl that ANNOUNCES `n` elements (sequence, map, tuple struct, tuple /
+/// struct variant) and then sends none, handed to `SerdeArrowSchema::from_value`.  The hint is not data: the outcome must be
+/// the one of the honest announcement (0) — before the fix `Vec::with_capacity(n)` in utils/value.rs panicked with
+/// "capacity overflow" for n = usize::MAX and aborted on allocation failure for n = 2^40.
+struct Announce(&'static str, usize);
+
+impl Serialize for Announce {
+    fn serialize<S: Serializer>(&self, s: S) -> Result<S::Ok, S::Error> {
+        use serde::ser::{SerializeMap, SerializeStructVariant, SerializeTupleStruct, SerializeTupleVariant};
+        match self.0 {
+            "seq" => s.serialize_seq(Some(self.1))?.end(),
+            "map" => s.serialize_map(Some(self.1))?.end(),
+            "tuple_struct" => s.serialize_tuple_struct("T", self.1)?.end(),
+            "tuple_variant" => s.serialize_tuple_variant("E", 0, "A", self.1)?.end(),
+            _ => s.serialize_struct_variant("E", 0, "A", self.1)?.end(),
+        }
+    }
+}
+
+fn len_hint_cases() -> Vec<Value> {
+    let mut out = Vec::new();
+    let mut k = 0;
+    for shape in ["seq", "map", "tuple_struct", "tuple_variant", "struct_variant"] {
+        for n in [0u64, 7, 1 << 40, u64::MAX] {
+            out.push(json!({"id": format!("overflow-0003{k:02}"), "seed": 0, "kind": "len_hint", "shape": shape, "n": n}));
+            k += 1;
+        }
+    }
+    out
+}
+
+fn exec_len_hint(input: &Value) -> Value {
+    use serde_arrow::schema::{SchemaLike, SerdeArrowSchema};
+    let n = input["n"].as_u64().unwrap() as usize;
+    let shape: &'static str = match input["shape"].as_str().unwrap() {
+        "seq" => "seq",
+        "map" => "map",
+        "tuple_struct" => "tuple_struct",
+        "tuple_variant" => "tuple_variant",
+        _ => "struct_variant",
+    };
+    let run = |n: usize| {
+        outcome::run(|| {
+            let schema = SerdeArrowSchema::from_value(&Announce(shape, n))?;
+            Ok::<Value, serde_arrow::Error>(json!({"fields": serde_json::to_value(&schema).map(|v| v["fields"].as_array().map(|a| a.len())).ok()}))
+        })
+    };
+    let imp = run(n);
+    let honest = run(0);
+    let mut case = input.clone();
+    case.as_object_mut().unwrap().insert("impl".into(), imp);
+    case.as_object_mut().unwrap().insert("honest".into(), honest);
+    case
+}
+
 fn deep_term_cases() -> Vec<Value> {
     [0u64, 1, 3, 32, 33, 1000, 100_000, 1_000_000]
         .iter()
@@ -56,7 +186,10 @@ fn exec_deep_term(input: &Value) -> Value {
 
 pub fn gen(ctx: &Ctx) -> Vec<Value> {
     if !ctx.thorough() {
-        return deep_term_cases();
+        let mut cases = deep_term_cases();
+        cases.extend(union_rows_cases(false));
+        cases.extend(len_hint_cases());
+        return cases;
     }
     let mut cases = vec![
         json!({"id": "overflow-000000", "seed": 0, "kind": "list_null", "n": 2147483647u64}),
@@ -67,6 +200,8 @@ pub fn gen(ctx: &Ctx) -> Vec<Value> {
         json!({"id": "overflow-000003", "seed": 0, "kind": "view_bytes", "n": 2050u64}),
     ];
     cases.extend(deep_term_cases());
+    cases.extend(union_rows_cases(true));
+    cases.extend(len_hint_cases());
     cases
 }
 
@@ -101,6 +236,12 @@ pub fn exec(input: &Value) -> Value {
     }
     if input["kind"] == "deep_term" {
         return exec_deep_term(input);
+    }
+    if input["kind"] == "union_rows" {
+        return exec_union_rows(input);
+    }
+    if input["kind"] == "len_hint" {
+        return exec_len_hint(input);
     }
     let n = input["n"].as_u64().unwrap();
     let fields = vec![Field {
